@@ -39,6 +39,26 @@ ASSUMPTIONS = [
     "half precisions are exercised at default-like parameters only (heavy-jump / large-volatility regimes overflow intermediate factors in 16 bits)",
     "half precisions: a backend refusal ('not implemented for Half/BFloat16') is counted as unsupported, not as a violation",
 ]
+ANCHORS = ['pfhedge.stochastic._utils:cast_state',
+           'pfhedge.stochastic.brownian:generate_brownian',
+           'pfhedge.stochastic.brownian:generate_geometric_brownian',
+           'pfhedge.stochastic.cir:generate_cir',
+           'pfhedge.stochastic.heston:generate_heston',
+           'pfhedge.stochastic.vasicek:generate_vasicek',
+           'pfhedge.stochastic.merton_jump:generate_merton_jump',
+           'pfhedge.stochastic.kou_jump:generate_kou_jump',
+           'pfhedge.stochastic.rough_bergomi:generate_rough_bergomi',
+           'pfhedge.stochastic.local_volatility:generate_local_volatility_process',
+           'pfhedge.instruments.primary.brownian:BrownianStock.simulate',
+           'pfhedge.instruments.primary.heston:HestonStock.simulate',
+           'pfhedge.instruments.primary.cir:CIRRate.simulate',
+           'pfhedge.instruments.primary.vasicek:VasicekRate.simulate',
+           'pfhedge.instruments.primary.merton_jump:MertonJumpStock.simulate',
+           'pfhedge.instruments.primary.kou_jump:KouJumpStock.simulate',
+           'pfhedge.instruments.primary.rough_bergomi:RoughBergomiStock.simulate',
+           'pfhedge.instruments.primary.local_volatility:LocalVolatilityStock.simulate',
+           'pfhedge.instruments.primary.base:BasePrimary.register_buffer']
+PYTEST_WORKLOAD = True  # thorough tier also runs /repo/tests with these passive monitors attached (DESIGN.md 2.7)
 DECIDING = ["generator.post", "simulate.post"]
 REQUIRED_BRANCHES = ["dtype.float64_under_float32_default", "init.non_default", "resimulate.changed_shape", "n_steps=1", "regime.low_variance"]
 
